@@ -336,6 +336,51 @@ func VerifH_c10_unwatch() {
 	vAssert("exec-runs-after-unwatch", ok && len(a) == 1)
 }
 
+// VerifH_c10_rewatch: several WATCH commands accumulate; watching a key
+// again (alone or together with others) after it was changed does not hide
+// the change; a change to any one of several watched keys aborts; keys in
+// another database are told apart.
+func VerifH_c10_rewatch() {
+	VerifSetup()
+	disp := vNewServer()
+	cs := vNewClientOn(disp)
+	other := vNewClientOn(disp)
+	vCmd(cs, "SET", "k", "1")
+	vCmd(cs, "SET", "j", "1")
+	vAssert("watch-two-keys-ok", vIsOK(vCmd(cs, "WATCH", "k", "j")))
+	changed := false
+	switch vChoice("change", 4) {
+	case 0:
+		vCmd(other, "SET", "k", "2")
+		changed = true
+	case 1:
+		vCmd(other, "APPEND", "j", "x")
+		changed = true
+	case 2:
+		// the same key name in another database is another key
+		vCmd(other, "SELECT", "1")
+		vCmd(other, "SET", "k", "2")
+	case 3:
+		vCmd(other, "GET", "k")
+	}
+	switch vChoice("again", 3) {
+	case 1:
+		vAssert("rewatch-ok", vIsOK(vCmd(cs, "WATCH", "k")))
+	case 2:
+		vAssert("rewatch-more-ok", vIsOK(vCmd(cs, "WATCH", "j", "k", "z")))
+	}
+	vCmd(cs, "MULTI")
+	vCmd(cs, "SET", "marker", "1")
+	r := vCmd(cs, "EXEC")
+	if changed {
+		vAssert("rewatch-does-not-hide-a-change", vIsNil(r))
+		vAssert("aborted-transaction-has-no-effect", vIsNil(vCmd(cs, "GET", "marker")))
+	} else {
+		a, ok := vArrayOf(r)
+		vAssert("unchanged-watched-keys-let-exec-run", ok && len(a) == 1)
+	}
+}
+
 // VerifH_c10_expiry: a watched key whose deadline passes between WATCH and
 // EXEC counts as modified; a key that was already expired when watched and
 // is still missing does not.
